@@ -3,8 +3,11 @@ Specification side of C08 for the two async halves of a function binding, as mon
 HOST observes of one call (CanonicalABI.md: `canon_task_return`, `canon_task_cancel`, `Task.exit`,
 `canon_lower` with `async`, `Subtask`).  Nothing here mentions the generator, the runtime or their
 models.  The driver `m_c08` evaluates the monitors on the IMPLEMENTATION's observations
-(checks/C08.py: real generated bindings + real runtime, natively); `Props/C08.lean` proves that the
-models' observations never trip them.  Import-free.
+(checks/C08.py: real generated bindings + real runtime, natively).  `Props/C08.lean` proves that the
+observations of the model wrapper ∥ executor never trip the EXPORT monitor
+(`export_task_return_xor_cancel_exactly_once`); the IMPORT monitor is the host's view of the clauses
+C21 proves on the runtime's own trace (`Props/C21.lean`, `lowered_params_alive_until_started`) and is
+evaluated on the implementation only.  Import-free.
 
 Export call (the host calls an async-lifted export), tokens in order of occurrence:
   `call`        the host invoked `[async-lift]f`
